@@ -71,3 +71,21 @@ Proof.
     as (T1 & T2 & T3 & T4 & T5 & T6).
   unfold run_top. repeat split; try assumption. rewrite T2. reflexivity.
 Qed.
+
+(* C02 for the executable instance and EVERY outcome: nothing is skipped => no path is ever resolved through a
+   destination link, whatever fails (Proofs/ConfineAll.v). *)
+From RJ Require Import Proofs.ConfineAll.
+Theorem run_top_all_confined cfg S D a ans bits ex ft :
+  unique_keys S -> wf_fs S -> unique_keys D -> wf_fs D ->
+  let r := run_top cfg S D a ans bits ex ft in
+  r_skipped r = [] -> no_through (d_events (r_dest r)).
+Proof.
+  intros HuS HwS HuD HwD. cbv zeta. unfold run_top. intros Hsk.
+  exact (all_runs_confined now_far (excl_incl ex) normalize_unix chunk_real
+           cfg S (world D a []) ans bits _ _ ft
+           (list_fs_valid now_far (excl_incl ex) normalize_unix S HuS HwS)
+           (list_fs_valid now_far (excl_incl ex) normalize_unix D HuD HwD)
+           (list_fs_parents_first now_far (excl_incl ex) normalize_unix S)
+           (list_fs_parents_first now_far (excl_incl ex) normalize_unix D)
+           HwD eq_refl Hsk).
+Qed.
